@@ -7,6 +7,7 @@ import NgVerif.Model.Shard
 import NgVerif.Model.CsegDecode
 import NgVerif.Model.Raw
 import NgVerif.Model.Coords
+import NgVerif.Model.Conv
 /-
   ngdriver: line protocol. One request per line on stdin (space-separated tokens),
   one reply per line on stdout. Unknown / malformed requests answer `bad-request`.
@@ -124,6 +125,13 @@ def ioHistory (isz : Nat) (size : Int × Int × Int) (css : List (Int × Int × 
       | _ => go s t ("bad" :: acc)
   ";".intercalate (go Coords.Store.empty ops [])
 
+def parseTy (t : String) : Option Conv.Ty :=
+  match t with
+  | "uint8" => some .u8 | "uint16" => some .u16 | "uint32" => some .u32 | "uint64" => some .u64
+  | "int8" => some .i8 | "int16" => some .i16 | "int32" => some .i32 | "int64" => some .i64
+  | "float32" => some .f32 | "float64" => some .f64
+  | _ => none
+
 def handle (toks : List String) : String :=
   match toks with
   | ["readable", n] =>
@@ -239,6 +247,29 @@ def handle (toks : List String) : String :=
     match parseNat isz, (parseList parseInt size), parseTriples css with
     | some i, some [a, b, c], some css => ioHistory i (a, b, c) css (ops.splitOn ";")
     | _, _, _ => "bad-request"
+  | ["conv", inT, outT, vals] =>
+    -- vals: n:k pairs separated by commas
+    match parseTy inT, parseTy outT with
+    | some i, some o =>
+      " ".intercalate ((vals.splitOn ",").map fun t =>
+        match t.splitOn ":" with
+        | [n, k] =>
+          match parseInt n, parseNat k with
+          | some n, some k =>
+            if o.isInt then
+              match Conv.toInt i o ⟨n, k⟩ with
+              | some x => s!"{x}/{Conv.nearestInt o ⟨n, k⟩}"
+              | none => s!"wrap/{Conv.nearestInt o ⟨n, k⟩}"
+            else toString (Conv.nearestF32 ⟨n, k⟩)
+          | _, _ => "?"
+        | _ => "?")
+    | _, _ => "bad-request"
+  | ["conv-plan", inT, outT] =>
+    match parseTy inT, parseTy outT with
+    | some i, some o =>
+      let w := if i.isInt && o.isInt then "input" else (if Conv.workFloat i o == .f32 then "float32" else "float64")
+      s!"{w} {Conv.intSafe i o}"
+    | _, _ => "bad-request"
   | _ => "bad-request"
 
 partial def loop (h : IO.FS.Stream) (out : IO.FS.Stream) : IO Unit := do
